@@ -133,6 +133,7 @@ type World struct {
 	Extended    []ExtendedAddr // accounts living at an actor's address plus extra bytes (funded by sends to such addresses)
 	ForeignAcct sdk.Address    // genesis account whose recorded public key is ForeignKey's (it does not hash to the address)
 	ForeignKey  *Actor
+	StepAbs     *time.Time // scenario scripts: the time of the next block
 	forceUnjail []string // validators whose jail expiry the block time was aimed at: they try to unjail in this block
 }
 
@@ -377,10 +378,21 @@ func (w *World) beginSpec() *BeginSpec {
 	h := e.H + 1
 	step := w.P.Steps[w.R.Intn(len(w.P.Steps))]
 	cp := ParamsOf(w.View())
+	if w.StepAbs != nil {
+		t := *w.StepAbs
+		w.StepAbs = nil
+		if t.After(w.Now) {
+			w.Now = t
+		}
+		return w.finishBeginSpec(e, h, cp)
+	}
 	if w.StepOverride != nil {
 		step = *w.StepOverride
 		w.StepOverride = nil
 		w.Now = w.Now.Add(time.Duration(step) * time.Second)
+		if w.P.SubSecond {
+			w.Now = w.Now.Add(time.Duration(w.R.PickI64(1, 999999, 250000000, w.R.Int63n(400000000))))
+		}
 		return w.finishBeginSpec(e, h, cp)
 	}
 	w.forceUnjail = nil
@@ -410,6 +422,10 @@ func (w *World) beginSpec() *BeginSpec {
 			if w.P.SubSecond {
 				// one nanosecond / a fraction of a second either side of the target as well
 				t = targets[i].Add(time.Duration(w.R.PickI64(-1000000000, -999999999, -500000000, -1, 0, 0, 1, 1000000000)))
+				if ns := int64(targets[i].Nanosecond()); ns > 0 && w.R.Chance(35) {
+					// strictly before the target but within the same second of the clock
+					t = targets[i].Add(-time.Duration(1 + w.R.Int63n(ns)))
+				}
 			}
 			if t.After(w.Now) {
 				if who[i] != "" {
@@ -881,6 +897,9 @@ func (w *World) Honest(a *Actor, msg sdk.Msg) *TxSpec {
 	s.Fee = ParamsOf(w.View()).RequiredFee(msg.Type())
 	return s
 }
+
+// StepTo sets the time of the next block (to the nanosecond).
+func (w *World) StepTo(t time.Time) { w.StepAbs = &t }
 
 // Step sets the time advance of the next block.
 func (w *World) Step(sec int64) { w.StepOverride = &sec }
